@@ -21,7 +21,7 @@ func (vc *VC) call(st *State, x *ssa.Call) {
 	if vc.callPC == nil {
 		vc.callPC = map[ssa.Instruction]Term{}
 	}
-	vc.callPC[x] = st.pc // `called(NAME, N)`: this execution reaches the call
+	vc.callPC[x] = st.cfOr() // `called(NAME, N)`: this execution reaches the call (control-flow condition)
 	hasAnchors := vc.contract != nil && len(vc.contract.Asserts) > 0
 	if hasAnchors {
 		c := x.Common()
@@ -1112,10 +1112,12 @@ func (vc *VC) runDefers(st *State) {
 		yes := st.clone()
 		yes.defers = nil
 		vc.assume(yes, de.guard)
+		yes.cf = and(st.cfOr(), de.guard)
 		vc.callCommon(yes, &de.d.Call, de.d.Call.Signature().Results(), de.d)
 		no := st.clone()
 		no.defers = nil
 		vc.assume(no, not(de.guard))
+		no.cf = and(st.cfOr(), not(de.guard))
 		m := vc.mergeStates([]*State{yes, no})
 		st.heap, st.ep, st.alloc, st.pc = m.heap, m.ep, m.alloc, m.pc
 	}
